@@ -10,6 +10,7 @@ a manager does (`Honest`), and gives the sequential driver used by the correspon
 Import-free apart from the pool model (linked into the `dpmodel` driver).
 -/
 import DeadpoolVerif.Model.Managed
+import DeadpoolVerif.Model.Solo
 
 namespace DeadpoolVerif
 namespace SP
@@ -87,35 +88,15 @@ instance Honest.dec (sp : Spoiled) : ∀ (s : State) (acts : List Action), Decid
 
 /-! ### sequential driver (correspondence check) -/
 
-/-- what the environment answers to operation `i` at its current point when the pool is used
-by one caller at a time: internal steps run, `create` and all hooks succeed, `Manager::recycle`
-answers with the manager's verdict on the connection -/
-def soloOutcome (verdict : Obj → Bool) (s : State) (i : Nat) : Option Outcome :=
-  match s.ops[i]? with
-  | some (.get _ (.recycling k o _)) =>
-    some (if k = s.cfg.pre.length then (if verdict o then .ok else .err) else .ok)
-  | some (.get _ (.creating _)) => some .ok
-  | some (.get _ (.postCreate ..)) => some .ok
-  | some .done => none
-  | some _ => some .run
-  | none => none
-
-/-- run operation `i` until it is done (or the fuel runs out / a step is refused) -/
-def soloRun (verdict : Obj → Bool) (s : State) (i : Nat) : Nat → State
-  | 0 => s
-  | fuel + 1 =>
-    match soloOutcome verdict s i with
-    | none => s
-    | some oc =>
-      match step s (.step i oc) with
-      | some s' => soloRun verdict s' i fuel
-      | none => s
+/-- the environment of the sequential driver: internal steps run, `create` and all hooks
+succeed, `Manager::recycle` answers with the manager's verdict on the connection (no state of
+its own) -/
+def env (verdict : Obj → Bool) : Solo.Env Unit :=
+  fun _ s i => (Solo.defaultOutcome verdict s i).map fun oc => (oc, ())
 
 /-- start an operation and run it to the end -/
 def solo (verdict : Obj → Bool) (s : State) (sp : Spec) (fuel : Nat := 200) : Option (State × Nat) :=
-  match step s (.start sp) with
-  | some s' => some (soloRun verdict s' s.ops.length fuel, s.ops.length)
-  | none => none
+  (Solo.soloOp (env verdict) () s sp fuel).map fun r => (r.2.1, r.2.2)
 
 end SP
 end DeadpoolVerif
